@@ -56,6 +56,32 @@ RANK_POOL = {
     "ba": lambda: pt.Bytes("a"), "bb": lambda: pt.Bytes("b"), "bc": lambda: pt.Bytes("base16", "63"), "bd": lambda: pt.Bytes("d"),
     "be": lambda: pt.Bytes("e"), "bf": lambda: pt.Bytes("base64", "Zg=="), "bT": lambda: pt.Tmpl.Bytes("TMPL_Y"),
 }
+def _lits():
+    """per-kind populations: every named constant, every base32 / base64 / base16 length class, texts with special
+    first characters"""
+    import base64
+    L = {}
+    for nm in ("Unknown", "Payment", "KeyRegistration", "AssetConfig", "AssetTransfer", "AssetFreeze", "ApplicationCall"):
+        L["txntype." + nm] = (lambda nm=nm: getattr(pt.TxnType, nm))
+    for nm in ("NoOp", "OptIn", "CloseOut", "ClearState", "UpdateApplication", "DeleteApplication"):
+        L["oncomplete." + nm] = (lambda nm=nm: getattr(pt.OnComplete, nm))
+    for n in range(0, 12):
+        raw = bytes(range(0x61, 0x61 + n))
+        b32 = base64.b32encode(raw).decode()
+        L["b32pad.%d" % n] = (lambda t=b32: pt.Bytes("base32", t))
+        L["b32nopad.%d" % n] = (lambda t=b32.rstrip("="): pt.Bytes("base32", t))
+        b64 = base64.b64encode(raw).decode()
+        L["b64.%d" % n] = (lambda t=b64: pt.Bytes("base64", t))
+        L["b16.%d" % n] = (lambda t=raw.hex(): pt.Bytes("base16", t))
+        L["b16x.%d" % n] = (lambda t="0x" + raw.hex(): pt.Bytes("base16", t))
+        L["raw.%d" % n] = (lambda t=raw: pt.Bytes(t))
+    for i, t in enumerate(["\ufeff", "\ufeffabc", "\ufeff\ufeffz", "a\ufeff", "\ufffe", "\u200b", "\x00a", "\\x41", "\\", "\\n",
+                           "\r", "\x7f", "\x80", "\xff", "\u0100", "0x", "base64(YQ==)", "//", "\"", "'", " ", "\t"]):
+        L["text.%d" % i] = (lambda t=t: pt.Bytes(t))
+    return L
+
+
+LITS = _lits()
 INTS = ["i0", "i1", "i127", "i128", "imax", "optin", "pay", "ti"]
 BYTES = ["ba", "b16", "b64", "b32", "be", "be16", "addr", "meth", "tb", "bq", "bu", "bs", "bmeth", "baddr", "b0x", "btm", "methsp", "methtab", "bsp", "addr_tmpl"]
 
@@ -141,9 +167,20 @@ def check_pair(build_fn, versions, out, meta, inputs=None, size=1):
     for v in versions:
         try:
             plain = pt.compileTeal(build_fn(), pt.Mode.Application, version=v, assembleConstants=False)
-            withc = pt.compileTeal(build_fn(), pt.Mode.Application, version=v, assembleConstants=True)
         except drive.PT_ERRORS as e:
             oc["pterr"] = oc.get("pterr", 0) + 1
+            continue
+        except Exception as e:
+            oc["crash_plain"] = oc.get("crash_plain", 0) + 1     # C20's business
+            continue
+        try:
+            withc = pt.compileTeal(build_fn(), pt.Mode.Application, version=v, assembleConstants=True)
+        except drive.PT_ERRORS as e:
+            # "changes only how constants are loaded": a program that compiles without the option compiles with it
+            oc["refused_with_option"] = oc.get("refused_with_option", 0) + 1
+            out["violations"].append({"driver": meta["driver"], "size": size,
+                                      "title": "%s v%d: compiles without assembleConstants, refused with it: %s" % (meta["driver"], v, str(e)[:120]),
+                                      "meta": meta, "version": v, "features": {"why": "refused", "driver": meta["driver"]}})
             continue
         except Exception as e:
             oc["crash"] = oc.get("crash", 0) + 1
@@ -214,6 +251,20 @@ def _build_meta(meta):
             steps += [pt.Assert(eq(singles + j)) for j in range(doubles)]
             return pt.Seq(*steps, pt.Int(1))
         return b
+    if d == "lits":
+        mk, uses, crowd = LITS[meta["lit"]], meta["uses"], meta["crowd"]
+
+        def b():
+            steps = []
+            if crowd:
+                # five other constants of each kind used three times: the literal under test competes for a place
+                for rnd in range(3):
+                    for j in range(5):
+                        steps.append(pt.Pop(pt.Int(1000 + j)))
+                        steps.append(pt.Pop(pt.Bytes("base16", "%04x" % (0xf000 + j))))
+            steps += [pt.Pop(mk()) for _ in range(uses)]
+            return pt.Seq(*steps, pt.Int(1))
+        return b
     if d == "rank":
         # constants in a given frequency order: the i-th name is used FREQS[i] times, so its rank in the
         # frequency-sorted block is exactly i (ties keep first-use order)
@@ -239,7 +290,7 @@ def _worker(items, base):
     for meta in items:
         d = meta["driver"]
         inputs = basic[:1] if d == "seq" else (basic if d == "ctrl" else basic[:1])
-        check_pair(_build_meta(meta), _VERSIONS if d not in ("many", "rank", "late") else (6,), out, meta, inputs, size=meta.get("size", 1))
+        check_pair(_build_meta(meta), _VERSIONS if d not in ("many", "rank", "late", "lits") else (3, 6), out, meta, inputs, size=meta.get("size", 1))
         out["counters"]["states"] = out["counters"].get("states", 0) + 1
         out["counters"]["transitions"] = out["counters"].get("transitions", 0) + meta.get("size", 1)
     if items and base % 4999 == 0:
@@ -274,6 +325,10 @@ def run(tier):
         for doubles in (1, 2, 5):
             for kind in ("big", "bytes"):
                 items.append({"driver": "late", "singles": singles, "doubles": doubles, "kind": kind, "size": singles + doubles})
+    for nm in LITS:
+        for uses in (1, 2, 4):
+            for crowd in (False, True):
+                items.append({"driver": "lits", "lit": nm, "uses": uses, "crowd": crowd, "size": uses})
     # frequency-rank driver: every ordering of 7 int constants (small / >=128 / template / named) and of 7 byte
     # constants over the frequency profile (4,4,3,3,2,2,2), plus profiles with ties and singletons
     int_pool = ["s0", "s1", "s2", "s3", "s5", "L1000", "T"]
